@@ -155,6 +155,51 @@ RetainedIntact(b) == \A i \in Callers : b.pc[i] = "done" => b.slots[b.wrap[i]] =
 \* the shared client is created exactly once and nobody sends with a nil or a superseded client
 OneClient(b)   == b.inits <= 1 /\ \A i \in Callers : b.pc[i] \in {"recv", "read", "done"} => b.using[i] = 1
 
+(***************************************************************************)
+(* Part C.  State that must NOT survive between calls or be shared between *)
+(* Runtimes.                                                               *)
+(***************************************************************************)
+\* (1) The body the reader sees is the body the transport returned, whatever Runtime.Debug says and however long it is.
+\*     size classes relative to a cap a debug dump might apply: empty | small | atcap | overcap
+BodySizes == {"empty", "small", "atcap", "overcap"}
+CodeBodySeen(debug, size) == size                      \* DumpResponse re-installs the complete body
+BodyAllowed(debug, size, seen) == seen = size
+DebugCapsBody(debug, size) == IF debug /\ size = "overcap" THEN "atcap" ELSE size     \* mutant
+
+\* (2) The ClientOperation is an input of Submit: it is not modified, so a second Submit of the same value sees the
+\*     transport-wide context of *that* call.  rtNow = [id, cancelled] (id 0: none).
+OpCtxSeen(opHasCtx, rtNow) ==
+  [op_value |-> opHasCtx, rt_id |-> IF opHasCtx THEN 0 ELSE rtNow.id, err |-> ~opHasCtx /\ rtNow.cancelled]
+\* mutant: the first call stores the runtime context in the operation (rtFirst), later calls use it
+StickyOpCtxSeen(opHasCtx, rtFirst) == OpCtxSeen(opHasCtx, rtFirst)
+
+\* (3) Every Runtime owns its consumer registry.  ops: new(r) | set(r, mt, id) | del(r, mt) | submit(r, t).
+\*     `stores` are the registry maps, `at[r]` the map Runtime r uses; `own[r]` is the registry r would have if isolated.
+DefaultTypes == {"application/json", "text/plain", "application/xml"}
+Builtin == [mt \in DefaultTypes |-> "builtin"]
+CInitM == [stores |-> <<>>, at |-> <<>>, own |-> <<>>]
+
+Lookup(reg, t) == IF t \in DOMAIN reg THEN [kind |-> "consumer", id |-> reg[t]]
+                  ELSE IF STAR \in DOMAIN reg THEN [kind |-> "consumer", id |-> reg[STAR]]
+                  ELSE [kind |-> "err", id |-> ""]
+MapSet(m, k, v) == [x \in DOMAIN m \cup {k} |-> IF x = k THEN v ELSE m[x]]
+MapDel(m, k)    == [x \in DOMAIN m \ {k} |-> m[x]]
+
+\* SharedDefaults = TRUE: New hands out one package-level map to every Runtime (mutant)
+CONSTANT SharedDefaults
+MApply(s, op) ==
+  CASE op.op = "new" ->
+         IF SharedDefaults /\ Len(s.stores) > 0
+         THEN [s EXCEPT !.at = Append(@, 1), !.own = Append(@, Builtin)]
+         ELSE [s EXCEPT !.stores = Append(@, Builtin), !.at = Append(@, Len(s.stores) + 1), !.own = Append(@, Builtin)]
+    [] op.op = "set" -> [s EXCEPT !.stores[s.at[op.r]] = MapSet(@, op.mt, op.id), !.own[op.r] = MapSet(@, op.mt, op.id)]
+    [] op.op = "del" -> [s EXCEPT !.stores[s.at[op.r]] = MapDel(@, op.mt), !.own[op.r] = MapDel(@, op.mt)]
+    [] OTHER -> s
+\* what Runtime r hands its reader for content type t / what it must hand (its own registry only)
+CodeMLookup(s, r, t) == Lookup(s.stores[s.at[r]], t)
+OwnLookup(s, r, t)   == Lookup(s.own[r], t)
+Isolated(s) == \A r \in DOMAIN s.at : s.stores[s.at[r]] = s.own[r]
+
 \* a gate history (what the harness scheduler released, in order) is a legal interleaving:
 \* every caller passes params, rt, reader in this order, once each
 GateOrder == <<"params", "rt", "reader">>
